@@ -73,7 +73,7 @@ func (c *Ctx) runLoopStateAlias(r *Report, rule string, pkgs func(string) bool) 
 						if sel := info.Selections[se]; sel == nil || sel.Kind() != types.FieldVal {
 							continue
 						}
-						cons := fn.id() + ":" + types.ExprString(l)
+						cons := fn.id() + ":" + noSpace(types.ExprString(l))
 						switch rhs := ast.Unparen(x.Rhs[i]).(type) {
 						case *ast.Ident:
 							o := info.Uses[rhs]
